@@ -906,6 +906,70 @@ inline int sx_main(int argc, char** argv, const char* property,
            (unsigned long long)R.distinct_nontrivial,
            (unsigned long long)R.distinct_outcomes, R.viol.size(), R.wall);
   }
+  // second pass: a case cut by its share of the deadline gets what the other
+  // cases left unused (the share is fixed when the case starts)
+  for (int pass = 0; pass < 2; ++pass) {
+    struct Again {
+      int kind; // 0 bfs, 1 enum
+      const void* c;
+      size_t idx;
+      int weight;
+    };
+    std::vector<Again> again;
+    size_t ri = 0;
+    double w2 = 0;
+    for (auto& c : bfs) {
+      if (!name_matches(D.opt.case_re, c.name))
+        continue;
+      if (D.results[ri].deadline_hit && D.results[ri].viol.empty()) {
+        again.push_back({0, &c, ri, c.weight});
+        w2 += c.weight;
+      }
+      ++ri;
+    }
+    for (auto& c : en) {
+      if (!name_matches(D.opt.case_re, c.name) ||
+          !(thorough ? c.thorough : c.quick))
+        continue;
+      if (D.results[ri].deadline_hit && D.results[ri].viol.empty()) {
+        again.push_back({1, &c, ri, c.weight});
+        w2 += c.weight;
+      }
+      ++ri;
+    }
+    for (auto& a : again) {
+      double left = D.opt.deadline - (now() - t0);
+      if (left < 2 * D.results[a.idx].wall + 3) {
+        w2 -= a.weight;
+        continue;
+      }
+      double b = left * a.weight / w2;
+      w2 -= a.weight;
+      if (a.kind == 0)
+        D.run_bfs(*(const BfsCase*)a.c, b);
+      else
+        D.run_enum(*(const EnumCase*)a.c, b);
+      D.results[a.idx] = D.results.back();
+      D.results.pop_back();
+      CaseResult& R = D.results[a.idx];
+      if (a.kind == 0)
+        printf("CASE %s bfs depth=%d/%d exhaustive=%d states=%llu trans=%llu "
+               "nontrivial=%llu viol=%zu %.1fs\n",
+               R.name.c_str(), R.depth_completed, R.depth_requested,
+               R.exhaustive, (unsigned long long)R.states,
+               (unsigned long long)R.transitions,
+               (unsigned long long)R.distinct_nontrivial, R.viol.size(),
+               R.wall);
+      else
+        printf("CASE %s enum inputs=%llu/%llu exhaustive=%d nontrivial=%llu "
+               "outcomes=%llu viol=%zu %.1fs\n",
+               R.name.c_str(), (unsigned long long)R.executions,
+               (unsigned long long)R.space, R.exhaustive,
+               (unsigned long long)R.distinct_nontrivial,
+               (unsigned long long)R.distinct_outcomes, R.viol.size(), R.wall);
+      printf("#   (re-run with the unused part of the deadline)\n");
+    }
+  }
   D.write_replays();
   int nv = 0;
   for (auto& R : D.results)
